@@ -194,6 +194,8 @@ var operandKinds = []MalType{
 	nil, 1, "s", sy("a"), sy("zz"), kw("k"), List{}, ls(1, 2), call1("quote", sy("x")), vc(sy("a"), 1), Vector{},
 	HashMap{Val: map[string]MalType{}}, sy("&"), ls(sy("catch")), ls(sy("catch"), sy("e")), ls(sy("catch"), sy("e"), 1),
 	ls(sy("catch"), 5, 1), ls(sy("finally")), ls(sy("unquote")), ls(sy("splice-unquote")), ls(ls(sy("splice-unquote"))),
+	HashMap{Val: map[string]MalType{"ʞa": ls(sy("unquote"))}}, vc(HashMap{Val: map[string]MalType{"ʞa": ls(sy("splice-unquote"))}}),
+	HashMap{Val: map[string]MalType{"ʞa": vc(ls(sy("unquote")), ls(sy("unquote"), 1, 2))}},
 	ls(sy("fn")), ls(sy("fn"), vc(sy("x")), sy("x")), ls(sy("fn"), ls(1), 2), ls(sy("fn"), ls(sy("&")), 2), ls(sy("fn"), ls(sy("a"), sy("&"), 1), 2),
 	true, ls(sy("throw"), 1), Set{Val: map[string]struct{}{}},
 	vc(sy("catch"), sy("e"), 1), vc(sy("finally"), 2), vc(sy("unquote"), 1), vc(sy("splice-unquote"), vc(1)), vc(sy("fn"), vc(), 1), vc(sy("quote"), 1),
